@@ -3,10 +3,10 @@ CONSTANTS
   M <- MCM
   SfSids <- MCSfSids
   ReqSeq <- MCReqSeq
-  BFamily <- BFamAll
+  BFamily <- BFamOneOff
   Export = FALSE
-  CheckE4 = FALSE
-  Dev_S20_RuleOffRaises = TRUE
+  CheckE4 = TRUE
+  Dev_S20_RuleOffRaises = FALSE
   Dev_S20b_UnofferedSessionAsserts = FALSE
 INVARIANT TypeOK
 INVARIANT E4_NoRaise
